@@ -31,6 +31,17 @@ CLAIMED = {
                 "traces are replayed through the model and balance-checked by trace_balance on every run).",
         "technique": "Coq proof (balance judgement over free-monad model, all responses) + trace replay + fd-table oracle under fault injection",
     },
+    "C10": {
+        "text": "Machine-checked theorems over all kernel answers (= all fault plans): only two recorded Panic sites are "
+                "reachable from any operation (the unreachable!(), fstat expect() and path_split expect() cannot fire); the "
+                "openat2 EAGAIN loops issue at most 16 calls, EAGAIN never surfaces as an OS error and never becomes a "
+                "partial result. Runtime: single faults at sampled/all indices x errno catalogue, EMFILE-from-index, "
+                "EAGAINx{1,15,16,17}, cold-start faults; oracles: no panic, bounded time, fd table, outside-root snapshot, "
+                "success => same effect as the unfaulted run; faulted traces replayed through the model.",
+        "note": COMMON_NOTE + "Known finding F-I-globalprocfs (Lazy global handle panics when all constructors fail) is "
+                "recorded, not repaired; Panic site 5 (Rc::try_unwrap) is believed unreachable but not yet proved so.",
+        "technique": "Coq proof (panic-site / call-count / result judgements, all responses) + exhaustive single-fault injection via seccomp supervisor + trace replay",
+    },
 }
 
 PENDING_REASON = "check not registered yet in this round (design in DESIGN.md §%s; being built)"
